@@ -51,6 +51,8 @@ pub struct Shadow {
     pub variants: BTreeSet<u64>,
     /// Ids of accepted merge-shaped commands that no honest replica wrote.
     pub extra_ids: BTreeSet<CmdId>,
+    /// Public signing-key id of every device (public data).
+    pub key_ids: BTreeMap<DeviceId, Vec<u8>>,
 }
 
 #[derive(Clone, Debug, PartialEq, Eq)]
@@ -96,7 +98,18 @@ impl Shadow {
             // a merge-shaped command that no honest replica wrote.
             return if strict_merge { Class::MustReject("merge-shaped") } else { Class::Undetermined("merge-shaped") };
         }
-        let Some(h) = h else { return Class::MustReject("id") };
+        let Some(h) = h else {
+            // Unknown id. If it is exactly what the verifier would derive from the offered fields,
+            // a bound field was changed and the id recomputed to fit (a hashing adversary).
+            let fits = VmData::decode(&c.data).is_some_and(|(v, _)| {
+                let pid = match c.parent {
+                    Prior::Single(a) => a.id,
+                    _ => CmdId::default(),
+                };
+                self.key_ids.get(&v.author_id).is_some_and(|k| crate::node::recompute_cmd_id(k, &v.kind, &pid, &v.serialized_fields, &v.signature) == c.id)
+            });
+            return Class::MustReject(if fits { "recomputed-id" } else { "id" });
+        };
         let Some(hv) = &h.vm else { return Class::MustReject("id-of-merge") };
         let Some((v, _trailing)) = VmData::decode(&c.data) else { return Class::MustReject("undecodable") };
         if c.parent_ids() != h.cmd.parent_ids() {
